@@ -55,7 +55,7 @@ Lemma demo_run : match raid_gen3_ssse3 with
                  | None => True
                  end.
 Proof.
-  destruct raid_gen3_ssse3 as [p|] eqn:E; [|exact I].
-  revert E. vm_compute. intros E. inversion E; subst. clear E.
-  split; [do 5 right; left; reflexivity|]. split; [exists 1; reflexivity|]. split; vm_compute; reflexivity.
+  unfold raid_gen3_ssse3 at 1. cbv beta iota.
+  first [exact I
+        |split; [do 5 right; left; reflexivity|]; split; [exists 1%nat; reflexivity|]; split; vm_compute; reflexivity].
 Qed.
